@@ -7,6 +7,7 @@ import stratfam
 import storefam
 import concfam
 import scfam
+import tempfam
 from vlib import InfraError
 
 CHECKS = {}
@@ -25,6 +26,8 @@ def replay(ctx, path):
     fam = obj.get("replay_family", "eval")
     if fam == "eval":
         return evalfam.replay(ctx, obj)
+    if fam == "tstore":
+        return tempfam.replay(ctx, obj)
     if fam == "sc":
         return scfam.replay(ctx, obj)
     if fam in ("lin", "race"):
@@ -84,3 +87,8 @@ def c18(ctx):
 @register("C19")
 def c19(ctx):
     return scfam.check_c19(ctx)
+
+
+@register("C13")
+def c13(ctx):
+    return tempfam.check_c13(ctx)
